@@ -110,6 +110,7 @@ int main(int argc, char** argv)
             if (info != Eigen::Success) { L.count("not_success"); return; }
             L.count("success");
             L.distinct.insert(f.h);
+            L.sample("{\"subject\": " + jstr(key) + ", \"info\": \"Success\"}", 4);
             Eigen::VectorXd ev = solver.eigenvalues();
             Eigen::MatrixXd X = solver.eigenvectors(), Rs = solver.residuals();
             if (ev.size() != k) { viol("count", "eigenvalues().size()=" + num(long(ev.size())) + " for block size " + num(k)); return; }
